@@ -71,7 +71,7 @@ def insertSorted (e : UEntry) : List UEntry → List UEntry
 
 /-- `TrieBuf::entries_iter_for` + `lookup_first_n_phrases` without a persisted snapshot: the pending entries
     whose key matches the query under the strategy (`==`, or per syllable `starts_with` with the same
-    number of syllables — since fix 097161a, F36, an in-memory `TrieBuf` matches pending entries by prefix;
+    number of syllables — since fix c3d9fb2, F36, an in-memory `TrieBuf` matches pending entries by prefix;
     before it the prefix lookup of an in-memory dictionary was its exact lookup), `BTreeMap` order, minus
     the tombstones of the entry's own key -/
 def layerLookup (es : List UEntry) (grave : List (List Nat × Text)) (key : List Nat) (st : Strategy := .standard) :
